@@ -10,6 +10,18 @@ import (
 	"github.com/oasisprotocol/oasis-core/go/storage/mkvs/node"
 )
 
+// vCacheKey: the symbolic key of step i; cfg keymask (default 255) keeps only the masked bits of every key
+// byte variable (a smaller key alphabet: fewer tree shapes, same mechanisms).
+func vCacheKey(i, n int) []byte {
+	k := vOpKey("key", i, n+1)
+	if m := symx.Cfg("keymask", 255); m != 255 {
+		for j := range k {
+			k[j] &= byte(m)
+		}
+	}
+	return k
+}
+
 // VerifC03Cache: n operations, each optionally followed by a persisted commit (and reopen).
 func VerifC03Cache() {
 	n := symx.Cfg("n", 3)
@@ -19,8 +31,18 @@ func VerifC03Cache() {
 	ref := &vRef{}
 	version := uint64(1)
 	for i := 0; i < n; i++ {
-		vApplyOp(t, ref, vOpKey("key", i, n+1), i)
-		if symx.Cfg("commits", 1) == 1 && symx.Bool(symx.N("commit", i)) {
+		// cfg kinds: decimal digits fixing the operation kinds (0 insert, 1 remove, 2 remove-existing, other: symbolic);
+		// cfg commitat: digits 1 = commit after this step, 0 = no commit, other / absent: symbolic
+		vApplyOpKind(t, ref, vCacheKey(i, n), i, vDigit("kinds", i, n))
+		doCommit := false
+		switch vDigit("commitat", i, n) {
+		case 0:
+		case 1:
+			doCommit = true
+		default:
+			doCommit = symx.Cfg("commits", 1) == 1 && symx.Bool(symx.N("commit", i))
+		}
+		if doCommit {
 			_, h, err := t.Commit(vCtx, vNs, version)
 			symx.Assert(err == nil, "Commit failed")
 			symx.Assert(h == vCanonicalRoot(ref), "committed root differs from the root of a fresh tree with the same contents")
@@ -33,7 +55,7 @@ func VerifC03Cache() {
 			symx.Cover("committed")
 		}
 	}
-	probe := vOpKey("key", n, n+1)
+	probe := vCacheKey(n, n)
 	vCheckMap(t, ref, probe, probe, true)
 	symx.Assert(vRootOf(t) == vCanonicalRoot(ref), "root differs from the root of a fresh tree with the same contents")
 	symx.Cover("end")
